@@ -64,6 +64,7 @@ if TYPE_CHECKING:
     from collections.abc import Mapping
 
     from gemseo.datasets.io_dataset import IODataset
+    from gemseo.problems.mdo.scalable.data_driven.model import ScalableModel
     from gemseo.typing import StrKeyMapping
 
 
@@ -71,6 +72,10 @@ class ScalableDiscipline(Discipline):
     """A scalable discipline."""
 
     _ATTR_NOT_TO_SERIALIZE = Discipline._ATTR_NOT_TO_SERIALIZE.union(["scalable_model"])
+
+    __scalable_model_settings: tuple[str, IODataset, dict[str, int], dict[str, Any]]
+    """The name of the class of the scalable model, the learning dataset,
+    the sizes of the variables and the parameters of the model."""
 
     def __init__(
         self,
@@ -87,14 +92,29 @@ class ScalableDiscipline(Discipline):
                 If empty, use the original sizes.
             **parameters: The parameters for the model.
         """  # noqa: D205 D212
-        self.scalable_model = ScalableModelFactory().create(
-            name, data=data, sizes=sizes, **parameters
-        )
+        self.__scalable_model_settings = (name, data, dict(sizes), parameters)
+        self.scalable_model = self.__create_scalable_model()
         super().__init__(self.scalable_model.name)
         self._initialize_grammars(data)
         self.io.input_grammar.defaults = self.scalable_model.default_input_data
         self.add_differentiated_inputs(self.io.input_grammar)
         self.add_differentiated_outputs(self.io.output_grammar)
+
+    def __create_scalable_model(self) -> ScalableModel:
+        """Create the scalable model from the settings passed at instantiation.
+
+        Returns:
+            The scalable model.
+        """
+        name, data, sizes, parameters = self.__scalable_model_settings
+        return ScalableModelFactory().create(
+            name, data=data, sizes=dict(sizes), **parameters
+        )
+
+    def __setstate__(self, state: StrKeyMapping) -> None:
+        super().__setstate__(state)
+        # The scalable model uses local functions that cannot be serialized.
+        self.scalable_model = self.__create_scalable_model()
 
     def _initialize_grammars(self, data: IODataset) -> None:
         """Initialize input and output grammars from data names.
